@@ -98,7 +98,8 @@ pub fn run_plan(b: u64, plan: &Value, seed: u64, out: &mut Out) -> (u64, bool) {
     };
     let base_tid = snap0.inflight.next_tid;
     let rt0: Vec<String> = snap0.routing_table.nodes.iter().map(|x| nm(&x.addr)).collect();
-    out.line(&json!({"e":"reset","b":b,"tid_base":base_tid,"plan":plan,"rt0":rt0}));
+    let infl0: Vec<Value> = snap0.inflight.entries.iter().map(|(t, a, _)| json!([t, nm(a)])).collect();
+    out.line(&json!({"e":"reset","b":b,"tid_base":base_tid,"plan":plan,"rt0":rt0,"infl0":infl0,"cap0":snap0.inflight.capacity}));
     let mut lines = 1u64;
     // plan: absolute start offsets of the calls
     let call_names: Vec<String> = plan["calls"].as_array().map(|a| a.iter().map(|x| x.as_str().unwrap_or("get1").to_string()).collect()).unwrap_or_default();
@@ -111,7 +112,7 @@ pub fn run_plan(b: u64, plan: &Value, seed: u64, out: &mut Out) -> (u64, bool) {
     let mut calls: Vec<Option<Call>> = call_names.iter().map(|_| None).collect();
     let mut called: Vec<String> = vec![];
     // harness-side wire bookkeeping: request tid -> (to, q, sent_ns)
-    let mut log_pos = sim.log.len();
+    let mut log_pos = 0;
     let mut reqs: HashMap<u32, (SocketAddrV4, String, u64)> = HashMap::new();
     let mut prev_live_empty = true;
     let mut drifted = false;
@@ -142,13 +143,17 @@ pub fn run_plan(b: u64, plan: &Value, seed: u64, out: &mut Out) -> (u64, bool) {
         }
         let s = match sim.snapshot(c) {
             Some(s) => s,
-            None => return,
+            None => {
+                // the node is gone (panic): nothing to project
+                out.line(&json!({"e":"dead","b":b,"panicked":sim.nodes[c].panicked,"panic":crate::util::last_panic().chars().take(200).collect::<String>()}));
+                return;
+            }
         };
         let timeout = s.inflight.timeout_ns;
         let q = s.queries.iter().find(|q| q.target == thex);
         let p = s.puts.iter().find(|p| p.target == thex);
         let cache = s.cache.iter().find(|e| e.target == thex);
-        let live: Vec<u32> = s.inflight.entries.iter().filter(|(t, _, age)| *t >= base_tid && *age < timeout).map(|(t, _, _)| *t).collect();
+        let live: Vec<u32> = s.inflight.entries.iter().filter(|(_, _, age)| *age < timeout).map(|(t, _, _)| *t).collect();
         let mut done = serde_json::Map::new();
         let mut outcomes = serde_json::Map::new();
         for n in ALL_CALLS {
@@ -160,7 +165,10 @@ pub fn run_plan(b: u64, plan: &Value, seed: u64, out: &mut Out) -> (u64, bool) {
                     None => "pending".to_string(),
                     Some(o) => {
                         let n = o.name();
-                        if name.starts_with("put") {
+                        if n == "Dropped" && !name.starts_with("get") {
+                            // the reply channel of a put / find_node caller was dropped without an answer
+                            "dropped".into()
+                        } else if name.starts_with("put") {
                             if n == "ok" { "ok".into() } else { "err".into() }
                         } else {
                             "end".into()
@@ -185,6 +193,7 @@ pub fn run_plan(b: u64, plan: &Value, seed: u64, out: &mut Out) -> (u64, bool) {
             "acks": p.map(|p| p.stored_at).unwrap_or(0),
             "errs": p.map(|p| p.errors.iter().map(|(n, _)| *n).sum::<u64>()).unwrap_or(0),
             "live": live,
+            "present": s.inflight.entries.iter().map(|(t, _, _)| *t).collect::<Vec<u32>>(), "cap": s.inflight.capacity,
             "next_tid": s.inflight.next_tid,
             "cache_on": cache.is_some(),
             "cache_kind": cache.map(|e| if e.find_node { "fn" } else { "get" }).unwrap_or("none"),
@@ -194,7 +203,7 @@ pub fn run_plan(b: u64, plan: &Value, seed: u64, out: &mut Out) -> (u64, bool) {
             "called": called, "done": Value::Object(done),
         });
         // requests (of this behaviour) that have expired by now, per the harness' own wire log
-        let expired: Vec<u32> = reqs.iter().filter(|(t, (_, _, sent))| **t >= base_tid && now - *sent >= timeout).map(|(t, _)| *t).collect();
+        let expired: Vec<u32> = reqs.iter().filter(|(_, (_, _, sent))| now - *sent >= timeout).map(|(t, _)| *t).collect();
         let mut line = step;
         line["b"] = json!(b);
         line["t_ms"] = json!((now - t0) / MS);
@@ -203,6 +212,10 @@ pub fn run_plan(b: u64, plan: &Value, seed: u64, out: &mut Out) -> (u64, bool) {
         line["outcomes"] = Value::Object(outcomes);
         line["quiet"] = json!(*prev_live_empty && line["e"] == "tick" && line["input"]["dir"] == "timeout");
         line["timeout_ms"] = json!(timeout / MS);
+        line["panicked"] = json!(sim.nodes[c].panicked);
+        if line.get("last").is_none() {
+            line["last"] = json!(false);
+        }
         *prev_live_empty = live_is_empty(&line);
         out.line(&line);
     };
@@ -269,6 +282,12 @@ pub fn run_plan(b: u64, plan: &Value, seed: u64, out: &mut Out) -> (u64, bool) {
         if sim.nodes[c].panicked {
             drifted = true;
         }
+    }
+    // closing line of the behaviour: one more input-less tick, everything must have completed by now
+    if sim.nodes[c].alive {
+        sim.poke(c);
+        emit(&mut sim, &mut calls, &called, &mut reqs, &mut log_pos, json!({"e":"tick","last":true,"input":{"dir":"timeout","tid":-1,"peer":"none","kind":"none"}}), &mut prev_live_empty, out);
+        lines += 1;
     }
     sim.tick_trace = None;
     sim.shutdown();
